@@ -67,4 +67,10 @@ PROPS = {
         quick=dict(runs=[dict(tests="^TestC09$", checks=500)], min_nontrivial=60),
         thorough=dict(runs=[dict(tests="^TestC09$", checks=2500, shards=16, timeout=3000)], min_nontrivial=400),
     ),
+    "C10": dict(
+        rule="fresh-sync worlds with GatewayClasses (ours / foreign / missing), 1..3 Gateways x 1..3 listeners (hostname nil/''/*/name; allowedRoutes kinds empty/HTTPRoute/TCPRoute/other group/mixed; namespaces Same/All/Selector with matching or non-matching namespace labels), 1..4 HTTPRoutes/TCPRoutes in two namespaces with 1..2 parentRefs (with/without namespace, group/kind, sectionName, dangling gateway), 1..2 rules, Exact/PathPrefix matches, 1..2 weighted backendRefs (missing service/port/endpoints, nil port, weight 0). An independent evaluation of the Gateway API admission rules gives the expected (host, path, type) -> backend table, the servers (with zero / non-zero weight) of each backend and the TCP ports; the written configuration is routed for 45 http requests and its TCP frontends are read. Non-trivial = at least one (route,parentRef,listener) admitted and at least one rejected for a reason other than class; distinct by digest.",
+        assumptions=HAPCFG_ASSUMPTIONS + ["objects carry API-server defaults (allowedRoutes present, from=Same, match type PathPrefix, value /)", "v1 HTTPRoute/Gateway and v1alpha2 TCPRoute only; listener hostname overrides route hostnames (documented limitation); https, filters, regex matches and passthrough listeners are not generated"],
+        quick=dict(runs=[dict(tests="^TestC10$", checks=500)], min_nontrivial=60),
+        thorough=dict(runs=[dict(tests="^TestC10$", checks=3000, shards=16, timeout=3000)], min_nontrivial=5000),
+    ),
 }
